@@ -6,7 +6,8 @@
 # Every ./check invocation calls this first, so a fresh restore works without a separate setup step.
 set -e
 cd "$(dirname "$0")"
-VENV=/verif/.venv
+ROOT="$(pwd)"
+VENV="$ROOT/.venv"
 STAMP=$VENV/.ok
 if [ -f "$STAMP" ] && "$VENV/bin/python" -c "import z3, jsonschema, numpy, pandas" 2>/dev/null; then
     exit 0
@@ -26,4 +27,4 @@ fi
         --no-deps z3-solver cvc5 jsonschema attrs referencing rpds_py jsonschema_specifications typing_extensions
     "$VENV/bin/python" -c "import z3, jsonschema, numpy, pandas, scipy, cvxpy; print('verif venv ok: z3', z3.get_version_string())"
     touch "$STAMP"
-) 9>/verif/.setup.lock
+) 9>"$ROOT/.setup.lock"
